@@ -616,14 +616,30 @@ def plain_status(report, db, cg, M, P):
             report.violation(R, 'status:map:%s' % hname, sf.path, sf.node,
                              sf.qualname, 'the %s argument is mapped as %s'
                              % (hname, table))
-    dp = [n for n in ast.walk(sf.node) if isinstance(n, ast.Assign)
-          and isinstance(n.targets[0], ast.Name)
-          and n.targets[0].id == 'do_ping']
-    if dp and ast.unparse(dp[0].value) == 'handle_ping is not False':
+    # the reactor's do_ping flag: read off the constructor call, whichever
+    # way the argument is passed or pre-computed
+    flag = None
+    sr_ci = db.get_class('minecraft.networking.connection', 'StatusReactor')
+    for n in ast.walk(sf.node):
+        if isinstance(n, ast.Call):
+            ent = None
+            try:
+                ent = db.resolve_dotted(sf.module, n.func)
+            except AnalysisError:
+                pass
+            if ent is sr_ci:
+                m = shared.call_args(db, sf.module, n)
+                if m and 'do_ping' in m:
+                    flag = shared.expand_locals(sf, m['do_ping'])
+    ref = ast.parse('handle_ping is not False', mode='eval').body
+    if flag is not None and boolfn.same_function(flag, ref):
         report.ok(R, 'do_ping = handle_ping is not False')
     else:
         report.violation(R, 'status:do-ping', sf.path, sf.node, sf.qualname,
-                         'do_ping is not `handle_ping is not False`')
+                         'the status reactor is built with do_ping = %s; it '
+                         'must ping unless handle_ping is False' % (
+                             ast.unparse(flag) if flag is not None
+                             else '<no StatusReactor construction>'))
     rs = [n for n in gs.reachable_nodes() if isinstance(n.ast, ast.Assign)
           and any(isinstance(t, ast.Attribute) and t.attr == 'reactor'
                   for t in n.ast.targets)]
